@@ -376,3 +376,25 @@ Definition final_ok (total : Z) (may_saturate cur_open : bool) (w pers : Z) : bo
   (may_saturate || (pers + w_extra w =? total))
   && (negb cur_open || (w_extra w =? 0))
   && (w_readers w =? 0).
+
+(* ---- replay inside Coq (no extraction, no OCaml): the observations the
+        instrumented implementation made after every model-visible step are
+        compared with the model evaluated by the kernel's VM ---- *)
+Definition obs_eqb (a b : Z * Z * Z * Z * Z) : bool :=
+  let '(a1, a2, a3, a4, a5) := a in
+  let '(b1, b2, b3, b4, b5) := b in
+  (a1 =? b1) && (a2 =? b2) && (a3 =? b3) && (a4 =? b4) && (a5 =? b5).
+Fixpoint lockstep (st : state) (steps : list (nat * (Z * Z * Z * Z * Z))) : bool :=
+  match steps with
+  | [] => true
+  | (tid, o) :: rest =>
+      let st' := step default_nops st tid in
+      if obs_eqb (obs_of (fst st')) o then lockstep st' rest else false
+  end.
+Fixpoint failing_from {A} (f : A -> bool) (i : nat) (l : list A) : list nat :=
+  match l with
+  | [] => []
+  | x :: l' => if f x then failing_from f (S i) l' else i :: failing_from f (S i) l'
+  end.
+Definition lockstep_failures (cases : list (state * list (nat * (Z * Z * Z * Z * Z)))) : list nat :=
+  failing_from (fun c => lockstep (fst c) (snd c)) 0 cases.
